@@ -125,20 +125,25 @@ fn modular(c: &mut Ctx, tier_thorough: bool, rng: &mut Rng) {
         currs.push((rng.next() >> 3) as i128);
     }
     for &curr in &currs {
+        // the primitive comparison against every threshold position b = curr - d, d = 0..8
         for age in -2i128..=64 {
             let s = curr - age;
             if s < 0 {
                 continue;
             }
             let a = s % 16;
-            let r = rc::modular_le(curr as isize + 1, a as isize, curr as isize - 3);
-            c.emit("reclaim_now", &[curr, a], r as i128);
-            c.prop(!r || age >= 3, "C12", || {
-                format!("reclaim test says old enough at curr={} stamp={} (true age {})", curr, s, age)
-            });
-            c.prop(!(3..=13).contains(&age) || r, "C12", || {
-                format!("reclaim test refuses an unambiguous old stamp: curr={} stamp={} (age {})", curr, s, age)
-            });
+            for d in 0..=8i128 {
+                let b = curr - d;
+                let r = rc::modular_le(curr as isize + 1, a as isize, b as isize);
+                c.emit("m_le", &[curr + 1, a, b], r as i128);
+                // le(a, b) must never say "a is at least as old as b" when the true stamp is newer
+                c.prop(!r || s <= b, "C12", || {
+                    format!("Modular::new({}).le({}, {}) = true but the true stamp {} is newer than {}", curr + 1, a, b, s, b)
+                });
+                c.prop(!(s <= b && age <= 13) || r, "C12", || {
+                    format!("Modular::new({}).le({}, {}) = false but the stamp {} (age {}) is unambiguously older", curr + 1, a, b, s, age)
+                });
+            }
         }
     }
     // merged stamp: exhaustive over residues for curr in a window, plus large epochs
